@@ -9,7 +9,7 @@ import values as V
 
 PID = "C12"
 THEOREMS = ["converter_writes_described_tree", "error_iff_inexpressible", "written_characters_are_xml_chars", "escapes_are_inverted",
-            "wellformed_tree_reads_back", "document_reads_back", "indentation_adds_only_blank_text",
+            "wellformed_tree_reads_back", "document_reads_back", "converted_document_has_one_root_element", "document_reads_back_wf", "indentation_adds_only_blank_text",
             "reads_back_modulo_indentation", "cr_in_text_refuted", "tab_in_attribute_refuted", "ns_uri_unescaped_refuted"]
 
 NAMES = ["a", "b", "c", "item", "p:x", "q:y", "x-1", "_u", "A.b", "é", "n"]
